@@ -134,6 +134,8 @@ class Inliner:
                             if isinstance(uc, dict) and uc.get('enum') and uc['enum'].get('vi') is not None:
                                 st['rv'] = _use({'k': 'const', 'ty': 'isize', 's': 'const %d_isize' % uc['enum']['vi'], 'int': uc['enum']['vi']})
         if j['inlined']:
+            if fold_const_str_eq(j, body.facts):
+                j['inlined'].append('fold:str-eq')
             fold_const_switches(j, body.facts)
             thread_known_variants(j)
         if thread_reaching_consts(j):
@@ -409,7 +411,19 @@ class Inliner:
             return False
         blk = j['blocks'][b]
         t = blk['term']
-        o = single_origin(trace_operand(tmp, t['args'][0], through_calls=set()))
+        o = single_origin(trace_operand(tmp, t['args'][0], through_calls=set())) if t['args'][0]['k'] != 'const' else None
+        fconst = t['args'][0] if t['args'][0]['k'] == 'const' and t['args'][0].get('fn') else (o.data if o is not None and not o.proj and o.kind == 'const' and isinstance(o.data, dict) and o.data.get('fn') else None)
+        if fconst is not None and '{constructor#' not in (fconst['fn'].get('uid') or ''):
+            # the callable is a fn item (`self.eat(Token::is_close_paren)`): a direct call with the tuple's components
+            to = single_origin(trace_operand(tmp, t['args'][1], through_calls=set()))
+            if to is None or to.proj or to.kind != 'agg' or to.data[2].get('agg') != 'tuple':
+                return False
+            t['func'] = fconst
+            t['fty'] = fconst.get('ty', '')
+            t['args'] = list(to.data[2]['ops'])
+            t['arg_tys'] = ['' for _ in t['args']]
+            j['inlined'].append('fn-item:' + fconst['fn']['def'])
+            return True
         if o is None or o.proj or o.kind != 'agg' or o.data[2].get('agg') != 'closure':
             return False
         g = self.prog.by_id.get(o.data[2]['closure'])
@@ -1067,6 +1081,37 @@ def _retarget(t, old, new):
         t['targets'] = [[v, (new if tb == old else tb)] for v, tb in t['targets']]
         if t['otherwise'] == old:
             t['otherwise'] = new
+
+
+def fold_const_str_eq(j, facts):
+    """`op == "+"` where both sides are string constants at this place (a helper that matches on an operator name,
+    inlined at a call site that passes a literal): the call becomes the constant answer, so the switch on it folds"""
+    from facts import op_const_str
+    tmp = Body(j, facts)
+    n = 0
+    for b in sorted(tmp.live_blocks):
+        blk = j['blocks'][b]
+        t = blk['term']
+        if t['k'] != 'call' or t.get('target') is None or len(t.get('args') or []) != 2:
+            continue
+        fd = _fn_def(t)
+        rdef = (((t.get('func') or {}).get('fn') or {}).get('resolved') or {}).get('def') or ''
+        if fd not in ('std::cmp::PartialEq::eq', 'std::cmp::PartialEq::ne') or 'for str' not in rdef and 'impl std::cmp::PartialEq for str' not in rdef and '&' not in rdef:
+            continue
+        vals = []
+        for a in t['args']:
+            sv = op_const_str(a)
+            if sv is None:
+                o = single_origin(trace_operand(tmp, a, through_calls=set()))
+                sv = op_const_str(o.data) if o is not None and o.kind == 'const' and not o.proj and isinstance(o.data, dict) else None
+            vals.append(sv)
+        if vals[0] is None or vals[1] is None:
+            continue
+        ans = (vals[0] == vals[1]) if fd.endswith('::eq') else (vals[0] != vals[1])
+        blk['stmts'].append(_assign(t['dest'], _use({'k': 'const', 'ty': 'bool', 's': 'const %s' % ('true' if ans else 'false'), 'int': 1 if ans else 0}), blk.get('span')))
+        blk['term'] = {'k': 'goto', 'target': t['target']}
+        n += 1
+    return n
 
 def fold_const_switches(j, facts):
     """a switch on a local whose only definition is a constant (a helper's flag parameter bound to `true` at the
